@@ -104,7 +104,8 @@ def scenarios(prop, tier, seed):
         ends = ["mid", "closeframe", "stall", "abrupt", "badtail", "stall", "early"]
         track = True
         force = lambda rnd, k, p: ({"earlydata": k % 3 == 0, "big": True, "writers": 8, "perwriter": 60} if p["end"] == "stall" else
-                                   {"earlydata": k % 3 == 0, "slowread": k % 2 == 0, "big": k % 2 == 1})
+                                   {"earlydata": k % 3 == 0, "slowread": k % 2 == 0, "big": k % 4 in (0, 1),
+                                    "writers": 8 if k % 4 == 0 else p["writers"], "perwriter": 30 if k % 4 == 0 else p["perwriter"]})
     else:
         raise Infra("no e2e scenarios for " + prop)
     scens = []
